@@ -96,6 +96,7 @@ class Ctl:
         self.nested_raised = []
         self.nested_calls = []  # solves made by callbacks on this very object, each with what is needed to judge it
         self.expected_check = None  # the check list the workload expects (None: the class's own)
+        self.expected_endogenous = None  # likewise the endogenous list
 
     def arm(self, plan, bus=None, tag=None):
         self.plan = plan or {}
